@@ -65,9 +65,9 @@ VecLaws ==
   /\ VVI_kSrlbU128(VVI_kSllbU128(a, a, 4), a, 4) = Tab([k \in 1..16 |-> IF k <= 12 THEN a[k] ELSE 0])
   /\ VVV_kCombineHiLoU64(a, b, a) = VVVI_kInterleaveShuffleU64x2(b, a, a, 256)           \* {b.lo, a.hi}: swizzle(1, 0)
   /\ VVV_kSwizzlev_U8(a, Tab([k \in 1..16 |-> k - 1]), a) = a
-  /\ VVVV_kBlendV_U8(a, b, BOnes(16), a) = b /\ VVVV_kBlendV_U8(a, b, BZero(16), a) = a
+  /\ VVVV_kBlendV_U8(a, b, BOnes(16), a, FALSE) = b /\ VVVV_kBlendV_U8(a, b, BZero(16), a, FALSE) = a
   /\ VVV_kMulhU16(a, b, a) = Map2(2, a, b, LAMBDA p, q : BSlice(BMul(BZExt(p, 4), BZExt(q, 4)), 2, 2))
-  /\ VVVV_kMAddU16(a, b, BZero(16), a) = VVV_kMulU16(a, b, a)
+  /\ VVVV_kMAddU16(a, b, BZero(16), a, FALSE) = VVV_kMulU16(a, b, a)
   /\ VV_kAbsI8(VV_kAbsI8(a, a), a) = VV_kAbsI8(a, a)
 
 (* float laws on the words read as binary32 / binary64 (n = 4, 8) *)
@@ -88,6 +88,11 @@ FloatLaws ==
   /\ FAddI(FOfInt(3, f), FOfInt(-3, f), f) = AnyZero(n) /\ FMulI(FOfInt(12, f), FOfInt(-12, f), f) = FOfInt(-144, f)
   /\ FSqrtI(FOfInt(144, f), f) = FOfInt(12, f) /\ FRcpP2(FOfInt(4, f), f) = BSub(FOfInt(1, f), BShl(BOfNat(2, n), f.mb))
   /\ FDivI(FOfInt(-144, f), FOfInt(12, f), f) = FOfInt(-12, f) /\ FModI(FOfInt(17, f), FOfInt(5, f), f) = FOfInt(2, f)
+  \* 16777217 = 2^24 + 1 = 4097 * 4095 + 2 ... : a product that needs 25 bits is rounded when it is not fused
+  /\ (n = 4 => /\ FMulAddI(FOfInt(4097, f), FOfInt(4097, f), FOfInt(-16785408, f), f, FALSE, FALSE, TRUE) = FOfInt(1, f)
+               /\ FMulAddI(FOfInt(4097, f), FOfInt(4097, f), FOfInt(-16785408, f), f, FALSE, FALSE, FALSE) = AnyZero(4))
+  /\ FMulAddI(FOfInt(3, f), FOfInt(5, f), FOfInt(7, f), f, TRUE, TRUE, FALSE) = FOfInt(-22, f)
+  /\ FMulAddI(FOfInt(3, f), FOfInt(5, f), FOfInt(7, f), f, FALSE, TRUE, TRUE) = FOfInt(8, f)
 
 Laws == IntLaws /\ (n = 1 => VecLaws) /\ (n = 2 => VecLaws) /\ (n = 4 => VecLaws) /\ FloatLaws
 BogusLaw == Bogus => BSub(x, y) = BSub(y, x)
